@@ -34,10 +34,11 @@ def resolve(X, name):
         if v.cls == 'VALID':
             m = fm.model(v.comp)
             return dict(kind='formula', Z=np.array(m['Elements']), w=np.array(m['massFractions']), density=None)
+        invalid = v.cls == 'INVALID'
     except Exception:
-        pass
+        invalid = False
     r = X.parse(name)
-    if not isinstance(r, xl.Err):
+    if not isinstance(r, xl.Err) and not invalid:          # a string the reference parser rules INVALID is no formula, whatever the library's parser makes of it
         return dict(kind='formula', Z=np.array(r['Elements']), w=np.array(r['massFractions']), density=None)
     r = X.nist(name)
     if not isinstance(r, xl.Err):
@@ -70,6 +71,21 @@ def names_for(X, rng, tier):
         out.append(fm.render(Glight.formula()))
     for _ in range(10 if tier == 'quick' else 100):
         out.append(fm.render(Gall.formula()))
+    # malformed neighbours of well-formed formulas (one character inserted / replaced): not a compound, every _CP call must fail
+    base = [fm.render(Glight.formula()) for _ in range(60 if tier == 'quick' else 600)] + ['Ca5(PO4)3F', 'Mg(OH)2', 'K4(Fe(CN)6)', 'Fe(CN)(CO)2', 'Al2O3Si(OH)4']
+    for b in base:
+        for _ in range(4):
+            i = rng.randrange(1, len(b) + 1)
+            ch = rng.choice('abcxn.)(,+ e')
+            m = b[:i] + ch + b[i:] if rng.random() < 0.7 else b[:i - 1] + ch + b[i:]
+            try:
+                if fm.classify(m.encode('latin1', 'replace')).cls == 'INVALID':
+                    out.append(m)
+            except Exception:
+                pass
+    for m in ('Ca(PO4)a3F', 'Mg(OH)x2', 'K4(Fe(CN)e6)', '(OH)a2', 'Ca((OH)a)2', 'H2O.', '.Cl', 'Fe(CN)(CO)b2'):
+        if fm.classify(m.encode()).cls == 'INVALID':
+            out.append(m)
     nl = X.nist_list()
     if isinstance(nl, xl.Err) or len(nl['names']) < 100:
         raise common.Inconclusive('NIST list unavailable: %r' % (nl,))
